@@ -1501,26 +1501,31 @@ def analytic_cases(ck: Check, n: int, thorough: bool):
                 found_input=True)
             continue
         nan = any(x != x for o in out for x in o.params)
-        diag = np.allclose(q3.get_unitary().numpy, np.diag(np.diag(
-            q3.get_unitary().numpy)))
-        if nan:
-            ck.violation(
-                'invalid-output:GeneralSQDecomposition:'
-                + ('U8-diagonal-nan' if diag else 'nan'),
-                'GeneralSQDecomposition returns a U8Gate with NaN parameters'
-                + (' for a diagonal qutrit unitary' if diag else ''),
-                {'pass': 'GeneralSQDecomposition', 'circuit': circ_desc(q3)},
-                found_input=True)
-            continue
-        dd = phase_dist(out.get_unitary().numpy, q3.get_unitary().numpy)
+        U3x3 = q3.get_unitary().numpy
+        # U8Gate's chart is singular where an entry of the unitary vanishes
+        # (calc_params divides by cos/sin of angles that are then 0)
+        singular = bool(np.min(abs(U3x3)) < 1e-9)
+        dd = None if nan else phase_dist(out.get_unitary().numpy, U3x3)
         ok = out.num_operations == 1 and isinstance(out[0, 0].gate, _U8) \
             and tuple(out.radixes) == (3,)
-        if dd > 1e-6 or not ok:
+        if nan or dd > 1e-6:
             ck.violation(
-                'unitary:GeneralSQDecomposition:qutrit' if dd > 1e-6
-                else 'postcondition:GeneralSQDecomposition:qutrit',
-                f'GeneralSQDecomposition on a qutrit: distance {dd:.3g}, '
-                f'output {[str(o) for o in out]}',
+                'invalid-output:GeneralSQDecomposition:U8-singular-point'
+                if singular else 'unitary:GeneralSQDecomposition:qutrit',
+                'GeneralSQDecomposition on a qutrit returns a U8Gate with '
+                + ('NaN parameters' if nan else f'distance {dd:.3g} from the '
+                   'input') + (' (unitary with a vanishing entry: singular '
+                               'point of U8Gate.calc_params)' if singular
+                               else ''),
+                {'pass': 'GeneralSQDecomposition', 'circuit': circ_desc(q3),
+                 'unitary': [[[float(z.real), float(z.imag)] for z in row]
+                             for row in U3x3]},
+                found_input=True)
+        elif not ok:
+            ck.violation(
+                'postcondition:GeneralSQDecomposition:qutrit',
+                f'GeneralSQDecomposition on a qutrit: output '
+                f'{[str(o) for o in out]}',
                 {'pass': 'GeneralSQDecomposition', 'circuit': circ_desc(q3)},
                 found_input=True)
     # no general gate of the radix in the gate set: documented ValueError
@@ -1558,6 +1563,10 @@ def runtime_lock(wait_s: float):
 
 
 def runtime_sample(ck: Check, thorough: bool):
+    if os.environ.get('C10_SKIP_RUNTIME'):
+        # development aid for seeded-change runs; never set by ./check itself
+        ck.coverage['runtime_sample'] = 'skipped: C10_SKIP_RUNTIME set'
+        return
     import bqskit.passes as P
     from bqskit.compiler import Compiler
     nprng = np.random.RandomState(ck.rng.randrange(2 ** 31))
